@@ -15,6 +15,8 @@ def collect_patterns(md=None):
     import importlib
     for _p in ("abbr", "def_list", "footnotes", "table", "task_lists", "ruby", "spoiler"):
         importlib.import_module("mistune.plugins." + _p)
+    # the directive modules as well (`mistune.directives._rst._directive_re`, `._fenced._directive_re`, `._fenced._type_re`, `.image._num_re`)
+    importlib.import_module("mistune.directives")
     pats = {}
     for name, mod in sorted(sys.modules.items()):
         if not (name == "mistune" or name.startswith("mistune.")):
